@@ -277,7 +277,7 @@ def part_pattern_sequences(res, rng, n):
         tracks, lines = rng.randint(1, 6), rng.randint(1, 8)
         ncell = tracks * lines
         model = [bytes(8)] * ncell
-        start = rng.choice(("fresh", "loaded", "loaded-embedded", "loaded-legacy-stamp"))
+        start = rng.choice(("fresh", "fresh-printed-then-sized", "loaded", "loaded-embedded", "loaded-legacy-stamp"))
         holder = None
         if start in ("loaded", "loaded-embedded", "loaded-legacy-stamp"):
             img = [rcell() for _ in range(ncell)]
@@ -305,12 +305,22 @@ def part_pattern_sequences(res, rng, n):
                 proj = holder.modules[1].project
                 pat = proj.patterns[0]
             model = list(img)
+        elif start == "fresh-printed-then-sized":
+            # a new pattern object is printed / logged before it gets its size (formatting is looking, not touching)
+            pat = api.Pattern()
+            rng.choice((repr, str, lambda o: f"{o}", lambda o: "%r" % (o,)))(pat)
+            if rng.random() < 0.5:
+                pat.tracks, pat.lines = tracks, lines
+            else:
+                pat.lines, pat.tracks = lines, tracks
+            proj = None
         else:
             pat = api.Pattern(tracks=tracks, lines=lines)
             proj = None
         history = [start]
+        backups = []
         for k in range(rng.randint(1, 6)):
-            op = rng.choice(("assign", "assign-long", "clear", "cell", "bulk", "read", "read-data"))
+            op = rng.choice(("assign", "assign-long", "clear", "cell", "bulk", "read", "read-data", "backup"))
             history.append(op)
             if op == "assign":
                 model = image(tracks, lines)
@@ -343,6 +353,15 @@ def part_pattern_sequences(res, rng, n):
                 note, vel, module, ctl, val = struct.unpack("<BBHHH", c)
                 pat.set_via_fn(lambda p_, l, t: api.Note(note=NOTECMD(note), vel=vel, module=module, ctl=ctl, val=val))
                 model = [c] * ncell
+            elif op == "backup":
+                # an undo snapshot: a deep copy of the pattern (or of its whole project) keeps the image of this moment
+                import copy
+                if proj is not None and rng.random() < 0.5:
+                    snap_proj = copy.deepcopy(proj)
+                    backups.append((snap_proj.patterns[0], b"".join(model), "project"))
+                else:
+                    backups.append((copy.deepcopy(pat), b"".join(model), "pattern"))
+                res.count("pattern_backups")
             elif op == "read":
                 if pat.raw_data != b"".join(model):
                     res.violation("C12:pattern-sequence", f"after {history}: raw_data differs from the cells the operations denote", {"history": history, "tracks": tracks, "lines": lines})
@@ -367,6 +386,10 @@ def part_pattern_sequences(res, rng, n):
             cells_now = [n_.raw_data for line in pat.data for n_ in line]
             if cells_now != model:
                 res.violation("C12:pattern-sequence-cells", f"after {history}: Pattern.data differs from the model", {"history": history})
+            for bk, img_then, what in backups:
+                if bk.raw_data != img_then:
+                    res.violation("C12:pattern-backup", f"a deep copy ({what}) taken during {history} no longer encodes the image the pattern had at that moment", {"history": history, "backup": what})
+                    break
         if s == 0:
             res.sample({"part": "pattern operation sequence", "shape": [tracks, lines], "history": history})
 
